@@ -20,7 +20,7 @@ RULE = (
     "{neighbors(filterfunc), find_links(filterfunc), bft/ibft, dft_recursive/idft_recursive, "
     "dft_iterative/idft_iterative (ff_via, ff_result), bfs, dfs_recursive, dfs_iterative, basic_render(rfunc, sort), "
     "render_to_plantuml_src(user_render_func), make_pyvis_net and pyvis_render_customizable(rvfunc, refunc), "
-    "nrpickler.dumps}.  Fault enumeration: a clean run with counting wrappers measures N_c invocations of each "
+    "nrpickler.dumps}, also with RE-ENTRANT callbacks (the callback itself renders / queries an overlapping universe) and on graphs containing a link that has lost an end.  Fault enumeration: a clean run with counting wrappers measures N_c invocations of each "
     "callback; then for every callback and every k in 1..N_c the call is repeated with a wrapper raising a private "
     "exception at the k-th invocation.  Oracle: the deep snapshot (attribute-name set and canonicalised values of "
     "every vertex, link, universe and law set via vars()) after the clean run and after every faulted run equals "
@@ -50,10 +50,11 @@ def budget(tier):
 
 def strategy(tier):
     return st.builds(
-        lambda g, uni, cache: {"g": g, "uni": list(dict.fromkeys(x % g["nv"] for x in uni)), "cache": cache},
+        lambda g, uni, cache, degen: {"g": g, "uni": list(dict.fromkeys(x % g["nv"] for x in uni)), "cache": cache, "degen": degen},
         graphs.graph_descs(max_v=5, max_e=8, min_v=1, min_e=0),
         st.lists(st.integers(0, 4), min_size=1, max_size=5),
         st.booleans(),
+        st.one_of(st.none(), st.none(), st.tuples(st.integers(0, 7), st.integers(0, 1))),
     )
 
 
@@ -83,7 +84,7 @@ def plain(x):
     return x
 
 
-def entries(vs, ls, u, start):
+def entries(vs, ls, u, start, sub):
     from edgegraph.output import nrpickler, plaintext, plantuml, pyvis
     from edgegraph.structure import DirectedEdge, TwoEndedLink, UnDirectedEdge, Vertex
     from edgegraph.traversal import breadthfirst as B
@@ -129,6 +130,19 @@ def entries(vs, ls, u, start):
         ("make_pyvis_net(refunc)", lambda f: pv(pyvis.make_pyvis_net(u, rvfunc=title, refunc=f)), lambda e: "e%d" % li[id(e)]),
         ("pyvis_render_customizable(rvfunc)", lambda f: pv(pyvis.pyvis_render_customizable(u, rvfunc=f)), title),
         ("pyvis_render_customizable(refunc)", lambda f: pv(pyvis.pyvis_render_customizable(u, rvfunc=title, refunc=f)), lambda e: "e"),
+        # RE-ENTRANT callbacks: the callback itself performs a read-only library call (on an overlapping universe)
+        ("make_pyvis_net(rvfunc re-entrant)", lambda f: pv(pyvis.make_pyvis_net(u, rvfunc=f)),
+         lambda v: (len(pyvis.make_pyvis_net(sub, rvfunc=title).nodes), title(v))[1]),
+        ("make_pyvis_net(refunc re-entrant)", lambda f: pv(pyvis.make_pyvis_net(u, rvfunc=title, refunc=f)),
+         lambda e: (len(pyvis.make_pyvis_net(sub).edges), "e%d" % li[id(e)])[1]),
+        ("basic_render(rfunc re-entrant)", lambda f: plaintext.basic_render(u, rfunc=f),
+         lambda v: (plaintext.basic_render(sub, rfunc=title), title(v))[1]),
+        ("render_to_plantuml_src(user_render_func re-entrant)", lambda f: plantuml.render_to_plantuml_src(u, opts(f)),
+         lambda v, o: (plantuml.render_to_plantuml_src(sub, opts()), "object %s\n" % title(v))[1]),
+        ("neighbors(filterfunc re-entrant)", lambda f: [ix(helpers.neighbors(v, 1, 1, f)) for v in vs],
+         lambda e, v: (helpers.neighbors(v, 1, 1) if v is not None else None, True)[1]),
+        ("bft(ff_via re-entrant)", lambda f: ix(B.bft(u, start, ff_via=f, **kw)),
+         lambda e, v: (B.bft(sub, sub.vertices[0], **kw), True)[1]),
         # no callback: clean run only
         ("render_to_plantuml_src", lambda f: plantuml.render_to_plantuml_src(u, opts()), None),
         ("make_pyvis_net()", lambda f: len(pyvis.make_pyvis_net(u).nodes), None),
@@ -168,9 +182,16 @@ def check_case(case):
                 v.extra = ["payload", k]
         u = Universe(vertices=[vs[m] for m in case["uni"]])
         start = u.vertices[0]
-        objs = vs + ls + [u, u.laws]
+        sub = Universe(vertices=u.vertices[: max(1, (len(u.vertices) + 1) // 2)] + [v for v in vs if all(v is not m for m in u.vertices)][:1])
+        if case.get("degen") and ls:
+            # a link that has LOST an end (public Link.unlink_from) but is still attached at the other one
+            l = ls[case["degen"][0] % len(ls)]
+            if len(l.vertices) == 2 and l.vertices[0] is not l.vertices[1]:
+                l.unlink_from(l.vertices[case["degen"][1]])
+                classes.add("link-that-lost-an-end")
+        objs = vs + ls + [u, u.laws, sub, sub.laws]
         before = deep_snapshot(objs)
-        for name, call, good in entries(vs, ls, u, start):
+        for name, call, good in entries(vs, ls, u, start, sub):
             cnt = [0]
 
             def counting(*a, _good=good):
